@@ -359,7 +359,7 @@ def drive(ctx, case, parts, d):
         n = len(dumps)
         head = rng.choice([ixgen.gen_slice(rng, n, allow_neg_step=False, wild=False), ixgen.gen_mask(rng, n),
                            ixgen.gen_inc_list(rng, n), ixgen.gen_int(rng, n) if n else FULL, FULL])
-        if n >= 2 and rng.random() < 0.2:
+        if n >= 2 and rng.random() < 0.5:
             # an integer list that is increasing inside every part but comes back to an earlier part after a later one
             groups = {}
             for r, g in enumerate(dumps):
